@@ -1,14 +1,9 @@
 #!/bin/sh
-# runs every seeded change against its home check (and a few related ones), recording results in seeded/<id>/meta.json
+# runs every seeded change that has no recorded result yet against the check of its own property (quick tier)
 cd /verif
-for d in seeded/C*-[ABCD]; do
+for d in seeded/C*-[A-F]; do
   id=$(basename $d); p=${id%%-*}
-  extra=""
-  case $p in
-    C03) extra=",C10,C12";; C10) extra=",C12,C03";; C08) extra=",C01,C06,C07";; C09) extra=",C01,C06";; C01) extra=",C09,C08";; C02) extra=",C08,C09";;
-    C06) extra=",C09";; C07) extra=",C06";; C15) extra=",C14";; C13) extra=",C07";; C04) extra=",C09";; C12) extra=",C10";;
-  esac
-  rm -f $d/meta.json
-  tools/mutant.py $d --checks $p$extra --meta > .work/matrix-$id.json 2>&1
+  if [ -f $d/meta.json ] && grep -q "\"$p/quick\"" $d/meta.json; then continue; fi
+  tools/mutant.py $d --checks $p --meta > .work/matrix-$id.json 2>&1
   echo "$id done"
 done
